@@ -70,12 +70,14 @@ func NewWorkerLoop(
 
 func (lh *WorkerLoop) Run(ctx context.Context) {
 	lh.logger.Debug("LHFLOW LHMSG WORKERLOOP START LISTENING NOW")
+	verifWorkerEvent(lh, "run.start")
 	for {
 		verifWorkerIdle(lh)
 		select {
 		case <-ctx.Done(): // system shutdown
 			lh.logger.Info("LHFLOW WORKERLOOP DONE STOPPED LISTENING, SHUTDOWN START")
 			lh.cleanupCurrentTerm()
+			verifWorkerEvent(lh, "run.end")
 			lh.logger.Info("LHFLOW WORKERLOOP DONE STOPPED LISTENING, SHUTDOWN END")
 			return
 
